@@ -255,12 +255,12 @@ def tag(n, d):
 
 
 class Emitted:
-    def __init__(self):
+    def __init__(self, tag_base=0):
         self.lines = []
         self.line_site = {}  # first line number of an instruction -> (phase, idx)
         self.tag_site = {}  # tag number -> (phase, idx)
         self.shell_tags = set()  # tag numbers of processes started through the shell (`$`)
-        self.n = 0
+        self.n = tag_base
 
     def new_tag(self, site, d):
         self.n += 1
@@ -273,9 +273,11 @@ def child_cmd_default(t):
     return '% true ' + t
 
 
-def emit_case(case, child=child_cmd_default, shell_child=lambda t: 'true ' + t):
-    """-> Emitted (text of the test case file)"""
-    em = Emitted()
+def emit_case(case, child=child_cmd_default, shell_child=lambda t: 'true ' + t, tag_base=0):
+    """-> Emitted (text of the test case file).  Instructions that the suite prepends to [setup] (case['suite_setup'])
+    are not in the file but count in the instruction numbering of the setup phase."""
+    em = Emitted(tag_base)
+    shift = len(case.get('suite_setup') or [])
     L = em.lines
     actor = case['actor']
     act_site = ('act', 0)
@@ -286,7 +288,7 @@ def emit_case(case, child=child_cmd_default, shell_child=lambda t: 'true ' + t):
     for ph in PH:
         for idx, ins in enumerate(case['phases'][ph]):
             if ins['k'] == 'spawn' and ins['kind'] == 'run-sym':
-                uses[ins['sym']] = (ph, idx, ins['ds'][0])
+                uses[ins['sym']] = (ph, idx + (shift if ph == 'setup' else 0), ins['ds'][0])
     pending_act_tag = None
     if actor == 'file':
         pending_act_tag = em.new_tag(act_site, case['act_d'])
@@ -301,7 +303,7 @@ def emit_case(case, child=child_cmd_default, shell_child=lambda t: 'true ' + t):
         nonlocal L
         L.append('[%s]' % ph)
         for idx, ins in enumerate(case['phases'][ph]):
-            site = (ph, idx)
+            site = (ph, idx + (shift if ph == 'setup' else 0))
             em.line_site[len(L) + 1] = site
             k = ins['k']
             if k == 'set':
@@ -403,6 +405,8 @@ def c_instr(ins, ph=None):
 def c_tcase(case, default):
     def lst(ph):
         xs = case['phases'][ph]
+        if ph == 'setup':
+            xs = list(case.get('suite_setup') or []) + list(xs)
         return clist([c_instr(i, ph) for i in xs]) if xs else '(@nil tinstr)'
 
     act = '(@nil N)' if case['actor'] == 'null' else clist([cN(case['act_d'])])
@@ -511,33 +515,80 @@ def canonical_calls(records, em):
     return out
 
 
+WAYS = ['standalone', 'explicit-suite', 'implicit-suite']  # + 'suite-root' / 'suite-sub' (run_group)
+
+
+def _mk_home(d):
+    os.makedirs(os.path.join(d, 'onedir'))
+    with open(os.path.join(d, 'src.txt'), 'w') as f:
+        f.write('one line\n')
+    with open(os.path.join(d, 'prog.src'), 'w') as f:
+        f.write('x\n')
+    with open(os.path.join(d, 'onedir', 'one.txt'), 'w') as f:
+        f.write('x\n')
+
+
+def suite_text(suite_setup, body=''):
+    t = ''
+    if suite_setup:
+        t += '[setup]\n' + ''.join('timeout = %s\n' % set_text(i) for i in suite_setup)
+    return t + body
+
+
+SUITE_LINE_RE = re.compile(r'^case\s+(\S+): \(.*?\) ([A-Z_]+)\s*$', re.M)
+
+
 class InProc:
+    """runs test cases through MainProgram.execute in this process, in one of the ways a case can be run: stand-alone
+    (with --act / --keep), with an explicit suite (--suite S CASE), with the implicit suite file exactly.suite of its
+    directory, or as a case of `exactly suite ROOT` (root suite / sub suite)"""
+
     def __init__(self, ctx):
         self.root = tempfile.mkdtemp(prefix='c19-', dir=ctx.work)
         self.home = os.path.join(self.root, 'home')
+        self.home_implicit = os.path.join(self.root, 'home-implicit')
         self.sbx = os.path.join(self.root, 'sandboxes')
-        os.makedirs(self.home)
+        _mk_home(self.home)
+        _mk_home(self.home_implicit)
         os.makedirs(self.sbx)
-        with open(os.path.join(self.home, 'src.txt'), 'w') as f:
-            f.write('one line\n')
-        with open(os.path.join(self.home, 'prog.src'), 'w') as f:
-            f.write('x\n')
-        os.makedirs(os.path.join(self.home, 'onedir'))
-        with open(os.path.join(self.home, 'onedir', 'one.txt'), 'w') as f:
-            f.write('x\n')
+        self.n_groups = 0
+        # `exactly suite` creates the sandboxes of its cases under the system temp dir: make that a private one
+        self._old_tempdir = tempfile.tempdir
+        tempfile.tempdir = self.sbx
         self.mp = impl.main_program(self.sbx)
+
+    def _left(self):
+        left = [x for x in os.listdir(self.sbx) if x.startswith('exactly-')]
+        for d in os.listdir(self.sbx):
+            p = os.path.join(self.sbx, d)
+            if os.path.isdir(p):
+                shutil.rmtree(p, ignore_errors=True)
+            else:
+                os.remove(p)
+        return left
 
     def run(self, case):
         em = emit_case(case)
-        path = os.path.join(self.home, 'c.case')
+        way = case.get('way', 'standalone')
+        home = self.home_implicit if way == 'implicit-suite' else self.home
+        path = os.path.join(home, 'c.case')
         with open(path, 'w') as f:
             f.write(em.text)
-        argv = ([case['opt']] if case.get('opt') else []) + [path]
+        argv = [case['opt']] if case.get('opt') else []
+        if way == 'explicit-suite':
+            sp = os.path.join(home, 'conf.suite')
+            with open(sp, 'w') as f:
+                f.write(suite_text(case.get('suite_setup')))
+            argv += ['--suite', sp]
+        elif way == 'implicit-suite':
+            with open(os.path.join(home, 'exactly.suite'), 'w') as f:
+                f.write(suite_text(case.get('suite_setup')))
+        elif way != 'standalone':
+            raise ValueError(way)
+        argv.append(path)
         with PopenRecorder() as rec:
-            r = impl.run_main(self.mp, argv, self.home, self.root)
-        left = os.listdir(self.sbx)
-        for d in left:
-            shutil.rmtree(os.path.join(self.sbx, d), ignore_errors=True)
+            r = impl.run_main(self.mp, argv, home, self.root)
+        left = self._left()
         if r.exception is not None:
             return em, None, 'exception escaped MainProgram.execute: %r' % (r.exception,)
         failure, ident = parse_verdict(r.exit_code, r.out, r.err, em)
@@ -545,7 +596,56 @@ class InProc:
                'exit_code': r.exit_code}
         return em, obs, None
 
+    def run_group(self, group):
+        """`exactly suite ROOT`: group = {'root': [cases], 'sub': [cases], 'root_setup': [...], 'sub_setup': [...]};
+        -> [(Emitted, obs | None, err | None)] for root cases then sub cases.  Only the STATUS of a case is reported."""
+        self.n_groups += 1
+        d = os.path.join(self.root, 'g%d' % self.n_groups)
+        _mk_home(d)
+        _mk_home(os.path.join(d, 'sub'))
+        ems, names = [], []
+        owner = {}
+        k = 0
+        for where, prefix in (('root', ''), ('sub', 'sub/')):
+            for i, case in enumerate(group[where]):
+                k += 1
+                case = dict(case, suite_setup=group.get(where + '_setup') or [])
+                em = emit_case(case, tag_base=k * 10000)
+                name = '%s%s%d.case' % (prefix, where[0], i)
+                with open(os.path.join(d, name), 'w') as f:
+                    f.write(em.text)
+                for n in em.tag_site:
+                    owner[n] = len(ems)
+                ems.append(em)
+                names.append(name)
+        with open(os.path.join(d, 'sub', 'sub.suite'), 'w') as f:
+            f.write(suite_text(group.get('sub_setup'), '[cases]\n' + ''.join('s%d.case\n' % i for i in range(len(group['sub'])))))
+        with open(os.path.join(d, 'root.suite'), 'w') as f:
+            f.write(suite_text(group.get('root_setup'), '[cases]\n' + ''.join('r%d.case\n' % i for i in range(len(group['root']))) +
+                               '[suites]\nsub/sub.suite\n'))
+        with PopenRecorder() as rec:
+            r = impl.run_main(self.mp, ['suite', os.path.join(d, 'root.suite')], d, self.root)
+        left = self._left()
+        shutil.rmtree(d, ignore_errors=True)
+        if r.exception is not None:
+            return [(em, None, 'exception escaped MainProgram.execute (suite): %r' % (r.exception,)) for em in ems]
+        status = {m.group(1): m.group(2) for m in SUITE_LINE_RE.finditer(r.out)}
+        out = []
+        for j, (em, name) in enumerate(zip(ems, names)):
+            ident = status.get(name)
+            if ident is None:
+                out.append((em, None, 'the suite reporter shows no status for %s: %r' % (name, r.out[-600:])))
+                continue
+            st = STATUS_OF_ID.get(ident, 'FInternal') if ident != 'PASS' else None
+            recs = [(n, t) for (n, t) in rec.records if owner.get(n) == j]
+            stray = [(n, t) for (n, t) in rec.records if n not in owner]
+            obs = {'calls': canonical_calls(recs + stray, em), 'failure': None if st is None else ('setup', 0, st),
+                   'sandbox_left': bool(left), 'ident': ident, 'exit_code': r.exit_code, 'status_only': True}
+            out.append((em, obs, None))
+        return out
+
     def close(self):
+        tempfile.tempdir = self._old_tempdir
         shutil.rmtree(self.root, ignore_errors=True)
 
 
@@ -770,6 +870,68 @@ def random_case(rng):
     return c
 
 
+def default_matters_cases():
+    """cases in which the DEFAULT limit decides (no `timeout` before the process that runs too long), and companions"""
+    MARK = lambda: spawn('pct', [0])
+    out = []
+    c = empty_case(act_d=100000)
+    c['phases']['cleanup'] = [MARK()]
+    out.append(c)
+    c = empty_case()
+    c['phases']['setup'] = [spawn('run', [100000])]
+    c['phases']['cleanup'] = [MARK()]
+    out.append(c)
+    c = empty_case()
+    c['phases']['assert'] = [spawn('text-matcher', [100000])]
+    c['phases']['cleanup'] = [MARK()]
+    out.append(c)
+    c = empty_case(act_d=1)
+    c['phases']['setup'] = [spawn('shell', [1]), setv(2), spawn('file-src', [3])]
+    c['phases']['cleanup'] = [MARK()]
+    out.append(c)
+    c = empty_case('source', 2)
+    c['phases']['before-assert'] = [spawn('pct', [1]), setv(None), spawn('run', [100000])]
+    c['phases']['cleanup'] = [setv(0), spawn('run', [1])]
+    out.append(c)
+    return out
+
+
+def ways_items(ctx):
+    """the same kinds of cases, run in the other ways a case can be run: `--suite S CASE`, implicit `exactly.suite`
+    (both also with --act / --keep), and as cases of the root suite / of a sub suite of `exactly suite ROOT`; the
+    suite may prepend `timeout` instructions to [setup]"""
+    rng = ctx.rng
+    items = []
+    k = 0
+    for way in ('explicit-suite', 'implicit-suite'):
+        for ss in ([], [setv(7)], [setv(None)]):
+            for c in default_matters_cases():
+                c['way'], c['suite_setup'] = way, [dict(i) for i in ss]
+                c['opt'] = [None, None, '--act', '--keep'][k % 4]
+                k += 1
+                items.append(c)
+        for _ in range(40 if ctx.quick else 400):
+            c = random_case(rng)
+            c['way'] = way
+            c['suite_setup'] = rng.choice([[], [], [setv(7)], [setv(None)], [setv(0)], [setv(3), setv(2 ** 31)]])
+            items.append(c)
+    dm = default_matters_cases
+    items.append({'root': dm()[:3], 'sub': dm()[:3], 'root_setup': [], 'sub_setup': []})
+    items.append({'root': dm()[2:], 'sub': dm()[2:], 'root_setup': [setv(7)], 'sub_setup': []})
+    items.append({'root': dm()[:2], 'sub': dm()[3:], 'root_setup': [], 'sub_setup': [setv(None)]})
+    for _ in range(25 if ctx.quick else 250):
+        g = {}
+        for where in ('root', 'sub'):
+            g[where] = []
+            for _ in range(2):
+                c = random_case(rng)
+                c['opt'] = None
+                g[where].append(c)
+            g[where + '_setup'] = rng.choice([[], [], [], [setv(7)], [setv(None)], [setv(1)]])
+        items.append(g)
+    return items
+
+
 def is_nontrivial(case, obs):
     """a `timeout` instruction precedes a started process, or a process expired (some failure with HARD_ERROR) """
     has_set = any(i['k'] == 'set' for ph in PH for i in case['phases'][ph])
@@ -778,6 +940,8 @@ def is_nontrivial(case, obs):
 
 def case_desc(case):
     return {'actor': case['actor'], 'act_child_seconds': case['act_d'], 'option': case.get('opt'),
+            'way_of_running': case.get('way', 'standalone'),
+            'setup_instructions_of_the_suite': [dict(i) for i in (case.get('suite_setup') or [])],
             'phases': {ph: [dict(i) for i in case['phases'][ph]] for ph in PH}}
 
 
@@ -785,7 +949,7 @@ def case_desc(case):
 # run
 # --------------------------------------------------------------------------------------------------------------
 def _inproc_worker(args):
-    work, cases = args
+    work, items = args
 
     class _C:
         pass
@@ -795,52 +959,71 @@ def _inproc_worker(args):
     ip = InProc(c)
     out = []
     try:
-        for case in cases:
-            em, obs, err = ip.run(case)
-            out.append((em.text, obs, err))
+        for item in items:
+            if 'root' in item:  # a suite: several cases
+                out.append([(em.text, obs, err) for (em, obs, err) in ip.run_group(item)])
+            else:
+                em, obs, err = ip.run(item)
+                out.append((em.text, obs, err))
     finally:
         ip.close()
     return out
 
 
-def observe_inproc(ctx, cases):
-    """run the cases in process, in parallel worker processes (each with its own home / sandbox root)"""
+def observe_inproc(ctx, items):
+    """run the cases / suites in process, in parallel worker processes (each with its own home / sandbox root)"""
     import multiprocessing
-    n = max(1, min(common.NCPU, len(cases) // 20 + 1))
-    chunks = [cases[i::n] for i in range(n)]
+    n = max(1, min(common.NCPU, len(items) // 20 + 1))
+    chunks = [items[i::n] for i in range(n)]
     with multiprocessing.get_context('fork').Pool(n) as pool:
         results = pool.map(_inproc_worker, [(ctx.work, ch) for ch in chunks])
-    out = [None] * len(cases)
+    out = [None] * len(items)
     for k, rs in enumerate(results):
         for j, r in enumerate(rs):
             out[k + j * n] = r
     return out
 
 
-def run_inproc(ctx, res, cases, label):
+def run_inproc(ctx, res, items, label):
+    """items: cases (run stand-alone / with explicit / implicit suite) and suites (groups of cases run by `exactly suite`)"""
     default = default_timeout()
-    terms, meta = [], []
-    for case, (text, obs, err) in zip(cases, observe_inproc(ctx, cases)):
-        d = case_desc(case)
-        if err is not None:
-            res.prop_failures.append(Failure('property', {'case': d, 'file': text}, err))
+    full, status_only = ([], []), ([], [])  # (terms, meta) per check function
+    for item, r in zip(items, observe_inproc(ctx, items)):
+        if 'root' in item:
+            pairs = []
+            for where in ('root', 'sub'):
+                for case in item[where]:
+                    case = dict(case, way='suite-' + where, suite_setup=item.get(where + '_setup') or [])
+                    pairs.append(case)
+            pairs = list(zip(pairs, r))
+        else:
+            pairs = [(item, r)]
+        for case, (text, obs, err) in pairs:
+            d = case_desc(case)
+            if err is not None:
+                res.prop_failures.append(Failure('property', {'case': d, 'file': text}, err))
+                continue
+            terms, meta = status_only if obs.get('status_only') else full
+            terms.append('(C19Case %s %s %s)' % (c_tcase(case, default), cbool(case.get('opt') == '--keep'), c_obs(obs)))
+            meta.append({'case': d, 'file': text, 'observed': obs, 'default_timeout': default})
+            res.count('%s: verdict %s' % (label, obs['ident']))
+            res.count('%s: way of running: %s%s' % (label, d['way_of_running'], ' ' + case['opt'] if case.get('opt') else ''))
+            res.count('%s: processes started: %s' % (label, min(len(obs['calls']), 6)))
+            if is_nontrivial(case, obs):
+                res.nontrivial.add(json.dumps(d, sort_keys=True))
+    for (terms, meta), fn, tg in ((full, 'check_c19', 'cases_'), (status_only, 'check_c19_status', 'suite_')):
+        if not terms:
             continue
-        terms.append('(C19Case %s %s %s)' % (c_tcase(case, default), cbool(case.get('opt') == '--keep'), c_obs(obs)))
-        meta.append({'case': d, 'file': text, 'observed': obs, 'default_timeout': default})
-        res.count('%s: verdict %s' % (label, obs['ident']))
-        res.count('%s: processes started: %s' % (label, min(len(obs['calls']), 6)))
-        if is_nontrivial(case, obs):
-            res.nontrivial.add(json.dumps(d, sort_keys=True))
-    cb, pb, errs = common.run_shards(PROP, IMPORTS, 'check_c19', terms, shard_size=300, tag='cases_' + label)
-    res.errors += errs
-    for i in pb:
-        res.prop_failures.append(Failure('property', meta[i],
-                                         'observed behaviour violates C19: a process was not handed the timeout in force / an '
-                                         'expiry was not a HARD_ERROR of that step / cleanup or sandbox removal missing / something '
-                                         'else ran after the expiry'))
-    for i in cb:
-        res.disagreements.append(Failure('correspondence', meta[i], 'Model/Timeout.v texecute differs from the observed execution'))
-    return terms, meta
+        cb, pb, errs = common.run_shards(PROP, IMPORTS, fn, terms, shard_size=300, tag=tg + label)
+        res.errors += errs
+        for i in pb:
+            res.prop_failures.append(Failure('property', meta[i],
+                                             'observed behaviour violates C19: a process was not handed the timeout in force (the '
+                                             'default, or the value last set) / an expiry was not a HARD_ERROR of that step / cleanup '
+                                             'or sandbox removal missing / something else ran after the expiry'))
+        for i in cb:
+            res.disagreements.append(Failure('correspondence', meta[i], 'Model/Timeout.v texecute differs from the observed execution'))
+    return full[0] + status_only[0], full[1] + status_only[1]
 
 
 # --------------------------------------------------------------------------------------------------------------
@@ -1105,11 +1288,16 @@ def run(ctx, res):
     n_sys = len(cases)
     for _ in range(1200 if ctx.quick else 12000):
         cases.append(random_case(ctx.rng))
+    ways = ways_items(ctx)
+    res.extra['ways_of_running_items'] = len(ways)
+    cases += ways
     res.rule = ('systematic: every phase x every kind of program use (run, $, %, -stdout-from/-stderr-from text source, '
                 'transformer run, line/text/file/files matcher run, -stdin of a program, env from a program, exit-code/stdout -from, '
                 'program symbol defined earlier) x timeout set before / after / lifted by none before / after / in an earlier phase / '
                 'only in cleanup / default; the action to check under each actor x {normal, --act, --keep}; stdin from a program; '
-                'expiry followed by failing cleanup; then random schedules (0..5 instructions per phase). non-trivial := a process '
+                'expiry followed by failing cleanup; then random schedules (0..5 instructions per phase); then default-decides and '
+                'random cases run in the other ways a case can be run: --suite S CASE, implicit exactly.suite (x --act / --keep), '
+                'case of the root suite / of a sub suite of `exactly suite ROOT`, the suite prepending timeout instructions. non-trivial := a process '
                 'was started and (a timeout instruction occurs in the case or the case ends in a failure); distinct := distinct case')
     terms, meta = run_inproc(ctx, res, cases, 'inproc')
     # (3) real runs
@@ -1127,7 +1315,8 @@ def replay(ctx, payload):
     if not d:
         print(json.dumps(payload, indent=1, default=str)[:4000])
         return 0
-    case = {'actor': d['actor'], 'act_d': d['act_child_seconds'], 'opt': d.get('option'), 'phases': d['phases']}
+    case = {'actor': d['actor'], 'act_d': d['act_child_seconds'], 'opt': d.get('option'), 'phases': d['phases'],
+            'way': d.get('way_of_running', 'standalone'), 'suite_setup': d.get('setup_instructions_of_the_suite') or []}
     default = default_timeout()
     os.makedirs(ctx.work, exist_ok=True)
     if d.get('child'):
@@ -1140,7 +1329,14 @@ def replay(ctx, payload):
     else:
         ip = InProc(ctx)
         try:
-            em, obs, err = ip.run(case)
+            if case['way'].startswith('suite-'):
+                where = case['way'][len('suite-'):]
+                g = {'root': [], 'sub': [], 'root_setup': [], 'sub_setup': []}
+                g[where] = [case]
+                g[where + '_setup'] = case['suite_setup']
+                em, obs, err = ip.run_group(g)[0]
+            else:
+                em, obs, err = ip.run(case)
         finally:
             ip.close()
         if err:
